@@ -10,9 +10,13 @@ FAMILY = {
     "partial_cmp": {("Iterator", "partial_cmp"), ("PartialOrd", "partial_cmp")},
     "cmp": {("Iterator", "cmp"), ("Ord", "cmp"), ("Iterator", "partial_cmp"),
             ("PartialOrd", "partial_cmp")},
+    # overridden operator methods: each must use its own operator (or derive it from partial_cmp)
+    "lt": {("Iterator", "lt"), ("PartialOrd", "lt")},
+    "le": {("Iterator", "le"), ("PartialOrd", "le")},
+    "gt": {("Iterator", "gt"), ("PartialOrd", "gt")},
+    "ge": {("Iterator", "ge"), ("PartialOrd", "ge")},
 }
-ALL_CMP = set().union(*FAMILY.values()) | {("PartialOrd", "lt"), ("PartialOrd", "le"),
-                                           ("PartialOrd", "gt"), ("PartialOrd", "ge")}
+ALL_CMP = set().union(*FAMILY.values())
 BAD_ADAPTORS = {"skip", "rev", "take", "step_by", "skip_while", "take_while", "filter", "nth",
                 "reverse", "then", "then_with", "not"}
 TYPES = ("impls::slice::ReadSlice", "impls::huffman_container::wrapper::Wrapped",
